@@ -104,6 +104,11 @@ def cases(tier):
                 out.append(dict(route='cli', file=fname, ops=h, grouped=True))
     for fname in FILES:
         out.append(dict(route='cli', file=fname, ops=[], grouped=False))
+    # items that cannot be edits of the file: no '=', no ':', unknown section / key for --item-value; a value with a stray '$'
+    for args in (['-e', 'Tabulation:nr'], ['-e', 'nr=5'], ['-a', 'Pair'], ['-a', 'Pair:'], ['-r', 'nocolon'], ['-e', '=5'], ['-e', ':=5'], ['--item-value', 'Nosuch:key'],
+                 ['--item-value', 'Tabulation:nosuch'], ['--item-value', 'nocolon'], ['-e', 'Pair:O-O=as.buck 1000.0 0.3 $'], ['-a', 'Pair:Th-O=as.buck 1000.0 0.3 $'],
+                 ['-e', 'Pair:O-O=${nosuch}']):
+        out.append(dict(route='cli-malformed', file='pair', args=args))
     # argument order of the manual's quick start: potable --override-item SECTION:KEY=VALUE POTENTIAL_DEFN_FILE OUTPUT_FILE
     for flag, item in (('--override-item', 'Tabulation:nr=5'), ('-e', 'Tabulation:nr=5'), ('--add-item', 'Pair:Th-O=as.lj 0.4 2.1'), ('--remove-item', 'Pair:U-U')):
         out.append(dict(route='cli-order', file='pair', flag=flag, item=item))
@@ -339,7 +344,23 @@ def run_cli_order(case):
     return dict(outcome='ok:cli-order' if not viol else 'violation', nontrivial=True, evals=2, violations=viol, states=['cli-order'], transitions=2, traces=1)
 
 
+def run_cli_malformed(case):
+    text = FILES[case['file']]().render()
+    want_output = '--item-value' not in case['args']
+    res = R.potable(text, args=case['args'], want_output=want_output)
+    viol = []
+    if res.exc is not None:
+        viol.append(dict(sig='internal-exception:%s@potable' % type(res.exc).__name__, msg='potable %s raised %s (%s) instead of reporting a configuration error' % (' '.join(case['args']), type(res.exc).__name__, res.exc), detail={}))
+    elif not res.config_error:
+        viol.append(dict(sig='invalid-edit-accepted:malformed-item', msg='potable %s: exit status %r, %s' % (' '.join(case['args']), res.status, res.stderr[-200:]), detail={}))
+    elif res.out_exists and res.out_bytes:
+        viol.append(dict(sig='rejected-but-wrote', msg='potable %s: configuration error but %d bytes written' % (' '.join(case['args']), len(res.out_bytes)), detail={}))
+    return dict(outcome='rejected:cli-malformed' if not viol else 'violation', nontrivial=True, evals=1, violations=viol, states=['cli-malformed'], transitions=1, traces=1)
+
+
 def run_case(case):
+    if case['route'] == 'cli-malformed':
+        return run_cli_malformed(case)
     if case['route'] == 'cli-order':
         return run_cli_order(case)
     return run_api(case) if case['route'] == 'api' else run_cli(case)
